@@ -3,7 +3,8 @@
    (name_after, other_args, ct_view, add_test_view; one_name = the keyword NAME occurs once). *)
 From Coq Require Import String List NArith.
 From CMinx Require Import Base.Str Model.Parser Model.Writer Model.DocTypes Model.Aggregator
-     Spec.EntrySpec Gen.SourceLiterals Proofs.EntryFacts Proofs.LiteralsMatch.
+     Spec.EntrySpec Gen.SourceLiterals Proofs.EntryFacts Proofs.LiteralsMatch
+     Base.PySem Gen.PySource Proofs.SourceMatch.
 Import ListNotations.
 
 (* the name is the argument following NAME, at any position; None iff NAME is the last argument *)
@@ -93,3 +94,27 @@ Theorem C11_warning_texts_pinned :
   = [s"function"; F; s"("; F; kw_expectfail; []; s")"; s"warning"; section_warning].
 Proof. exact test_doc_literals. Qed.
 Print Assumptions C11_warning_texts_pinned.
+
+(* ---- tie by translation: Gen/PySource.v is regenerated from the CURRENT Python source by
+   translators/py2coq.py (statement-by-statement rendering of the function into Gallina over the
+   combinators of Base/PySem.v); the model function is proved equal to it for all arguments ---- *)
+Theorem C11_test_process_matches_source :
+  forall w name doc xf params is_macro,
+    PySource.TestDocumentation_process w [] name doc xf
+    = w_add w (render_entry (ETest false name doc xf params is_macro)).
+Proof. exact test_process_matches_source. Qed.
+Print Assumptions C11_test_process_matches_source.
+
+Theorem C11_section_process_matches_source :
+  forall w name doc xf params is_macro,
+    PySource.SectionDocumentation_process w [] name doc xf
+    = w_add w (render_entry (ETest true name doc xf params is_macro)).
+Proof. exact section_process_matches_source. Qed.
+Print Assumptions C11_section_process_matches_source.
+
+Theorem C11_ctest_process_matches_source :
+  forall w name doc params,
+    PySource.CTestDocumentation_process w [] name doc params
+    = w_add w (render_entry (ECTest name doc params)).
+Proof. exact ctest_process_matches_source. Qed.
+Print Assumptions C11_ctest_process_matches_source.
